@@ -144,6 +144,77 @@ def build_binary(prop, cfg):
 
 
 # ------------------------------------------------------------------------------------------------
+# libFuzzer campaigns (thorough tier): the same check object and oracle behind LLVMFuzzerTestOneInput
+# ------------------------------------------------------------------------------------------------
+def fuzz_san(prop):
+    # undefined behaviour is part of the oracle only where the property says so (C01, C04, C18); elsewhere a UBSan report with a correct
+    # value is informational, so the fuzz build must not abort on it
+    if prop.get("ub_is_violation"):
+        return ["-fsanitize=fuzzer-no-link,address,undefined", "-fno-sanitize-recover=undefined", "-g1"]
+    return ["-fsanitize=fuzzer-no-link,address", "-g1"]
+
+
+def build_fuzz_binary(prop, cfg):
+    flags = ["-std=" + ("gnu++17" if cfg.std in ("c++11", "c++14", "c++17") else "gnu++20"), "-O1", "-w"] + ["-DAVEL_" + m for m in cfg.macros] + C.mflags(cfg.macros) + fuzz_san(prop) + list(prop.get("cxxflags", []))
+    if cfg.std in ("c++11", "c++14") and prop["id"] == "C18":
+        flags[0] = "-std=gnu++14"
+    o, err = compile_obj(os.path.join(HARNESS, "checks", prop["source"]), flags, "clang++")
+    if o is None:
+        return None, err
+    d, err = compile_obj(os.path.join(HARNESS, "fuzz_driver.cpp"), ["-std=gnu++17", "-O1", "-w", "-g1", "-fsanitize=fuzzer,address,undefined"], "clang++", uses_repo=False)
+    if d is None:
+        return None, err
+    objs = [d, o]
+    for src, fl in prop.get("ref_sources", []):
+        ro, err = compile_obj(os.path.join(HARNESS, src), fl, "g++", uses_repo=False)
+        objs.append(ro)
+    exe = os.path.join(BUILD, "fz-%s-%s-%s" % (prop["id"], cfg.name, hashlib.sha256(" ".join(objs).encode()).hexdigest()[:12]))
+    if not os.path.exists(exe) or os.environ.get("VERIF_NOCACHE"):
+        r = sh(["clang++", "-fsanitize=fuzzer,address,undefined", "-o", exe + ".tmp"] + objs + ["-lm"])
+        if r.returncode != 0:
+            return None, r.stderr
+        os.replace(exe + ".tmp", exe)
+    return exe, ""
+
+
+def run_fuzz(prop, cfg, known, outdir):
+    exe, err = build_fuzz_binary(prop, cfg)
+    if exe is None:
+        return {"config": cfg.name, "build_failed": first_error(err)}
+    tag = "%s-%s" % (prop["id"], cfg.name)
+    work = os.path.join(outdir, "fuzz-" + tag)
+    shutil.rmtree(work, ignore_errors=True)
+    os.makedirs(os.path.join(work, "corpus")); os.makedirs(os.path.join(work, "cases")); os.makedirs(os.path.join(work, "artifacts"))
+    env = dict(os.environ)
+    env["VP_KNOWN"] = ";".join(k["sig"] for k in known if known_applies(k, cfg))
+    env["VP_FUZZ_OUT"] = os.path.join(work, "cases")
+    env["VP_TIER"] = "thorough"
+    env["ASAN_OPTIONS"] = "detect_leaks=1:allocator_may_return_null=1"
+    runs = int(os.environ.get("VERIF_FUZZ_RUNS", str(prop.get("fuzz_runs", 400000))))
+    cmd = [exe, "-runs=%d" % runs, "-seed=%d" % SEED, "-max_len=2304", "-use_value_profile=1", "-print_final_stats=1", "-artifact_prefix=" + os.path.join(work, "artifacts") + "/", os.path.join(work, "corpus")]
+    t0 = time.time()
+    try:
+        r = subprocess.run(cmd, stdout=subprocess.PIPE, stderr=subprocess.PIPE, text=True, env=env, timeout=3600)
+    except subprocess.TimeoutExpired:
+        return {"config": cfg.name, "timeout": True}
+    m = re.search(r"stat::number_of_executed_units:\s*(\d+)", r.stderr)
+    res = {"config": cfg.name, "cfg": cfg, "exe": exe, "executed": int(m.group(1)) if m else 0, "wall": round(time.time() - t0, 1), "failures": [], "rc": r.returncode}
+    for f in sorted(glob.glob(os.path.join(work, "cases", "case-*.txt"))):
+        lines = open(f).read().split("\n")
+        res["failures"].append({"text": lines[0], "sig": lines[1] if len(lines) > 1 else "?", "msg": lines[2] if len(lines) > 2 else ""})
+    arts = [a for a in glob.glob(os.path.join(work, "artifacts", "*")) if os.path.basename(a).startswith(("crash-", "leak-"))]
+    if arts and not res["failures"]:
+        # a memory error / leak caught by the sanitizer itself: the artifact is the replayable unit
+        keep = os.path.join(HERE, "replays", prop["id"]); os.makedirs(keep, exist_ok=True)
+        dst = os.path.join(keep, "fuzz-%s-%s" % (cfg.name, os.path.basename(arts[0])))
+        shutil.copy(arts[0], dst)
+        msg = [l for l in r.stderr.split("\n") if "ERROR" in l or "SUMMARY" in l]
+        res["failures"].append({"artifact": dst, "sig": "?|?|sanitizer:" + (msg[0][:80] if msg else "abort"), "msg": " / ".join(msg)[:500], "text": ""})
+    shutil.rmtree(work, ignore_errors=True)
+    return res
+
+
+# ------------------------------------------------------------------------------------------------
 # known findings
 # ------------------------------------------------------------------------------------------------
 def load_known(pid):
@@ -321,7 +392,22 @@ def main_check(pid, tier):
                     jobs += [(c, "sweep", (i, nsh)) for i in range(nsh)]
     with ThreadPoolExecutor(max_workers=JOBS) as ex:
         results = list(ex.map(lambda j: run_one(prop, j[0], tier, rpath, known, outdir, j[1], j[2]), jobs))
-    return aggregate(pid, prop, tier, cfgs, results, known, nreg, t0)
+    extra = None
+    if tier != "quick" and prop.get("fuzz"):
+        fcfgs = prop["fuzz"](INC) if callable(prop["fuzz"]) else [C.Config(m) for m in ([], ["SSE2"], ["AVX2"], list(C.EVERYTHING))]
+        with ThreadPoolExecutor(max_workers=JOBS) as ex:
+            fres = list(ex.map(lambda c: run_fuzz(prop, c, known, outdir), fcfgs))
+        extra = {"libfuzzer": [{k: v for k, v in f.items() if k not in ("cfg", "exe")} for f in fres]}
+        for f in fres:
+            for fl in f.get("failures", []):
+                # confirm through the ordinary (non-fuzz) binary of the same configuration; the Case is configuration independent
+                fake = {"sig": fl["sig"], "msg": "[libFuzzer] " + fl["msg"], "expect": [], "actual": [], "bad_lane": -1, "phase": "libfuzzer", "confirmed": 3,
+                        "case": {"text": fl["text"], "target": fl["sig"].split("|")[0], "op": fl["sig"].split("|")[1] if "|" in fl["sig"] else "?", "s": [], "v": []}}
+                if fl.get("artifact"):
+                    fake["case"]["fuzz_artifact"] = fl["artifact"]
+                results.append({"config": f["cfg"], "exe": f.get("exe"), "rc": 1, "stderr": "", "json": {"rule": "", "evaluations": 0, "lanes_compared": 0, "nontrivial": 0, "distinct_nontrivial": 0,
+                                "known_excluded": 0, "not_applicable": 0, "classes": {}, "per_target": {}, "per_op": {}, "domains": [], "samples": [], "failures": [fake], "known": []}})
+    return aggregate(pid, prop, tier, cfgs, results, known, nreg, t0, extra)
 
 
 def aggregate(pid, prop, tier, cfgs, results, known, nreg, t0, extra_cov=None):
@@ -356,7 +442,7 @@ def aggregate(pid, prop, tier, cfgs, results, known, nreg, t0, extra_cov=None):
             continue
         if cfg.name not in executed:
             executed.append(cfg.name)
-        rule = j["rule"]
+        rule = j["rule"] or rule
         ev["evaluations"] += j["evaluations"]; ev["lanes"] += j["lanes_compared"]; ev["nontrivial"] += j["nontrivial"]
         ev["distinct_max"] = max(ev["distinct_max"], j["distinct_nontrivial"]); ev["distinct_sum"] += j["distinct_nontrivial"]
         ev["known_excl"] += j["known_excluded"]; ev["na"] += j["not_applicable"]
